@@ -27,7 +27,7 @@ rm -f tests/seed_demo.rs
 rm -rf target
 echo "== checks" >> "$LOG"
 cd /verif
-for p in C01 C02 C03 C04 C05 C06 C07 C08 C09 C11 C12 C15 C10 C13 C14 C16 C18 C19; do
+for p in C01 C02 C03 C04 C05 C06 C07 C08 C09 C11 C12 C15 C10 C13 C14 C16 C17 C18 C19; do
   out=$(CBV_REPO="$W" ./check $p 2>&1)
   echo "$out" | tail -1 >> "$LOG"
   echo "$out" | grep -A3 "^VIOLATION" | grep -E "key=|why=" | cut -c1-400 >> "$LOG"
